@@ -15,6 +15,7 @@ import ASV.Proofs.ModulesChain
 import ASV.Proofs.ModulesLayoutIdx
 import ASV.Proofs.ModulesLayoutFacts
 import ASV.Proofs.ModulesLine
+import ASV.Proofs.ModulesBlocks
 import ASV.Proofs.ModulesHmm
 namespace ASV.C14
 open ASV ASV.Modules ASV.Modules.T
@@ -263,6 +264,32 @@ theorem chain_reports_assembly_line (genes : List Gene) (h : ∀ g ∈ genes, In
   rw [List.map_map]
   exact hok
 
+/-- 8c. merging only between direct neighbours: with a separator put into the assembly line
+    wherever two consecutive genes with domains are *not* direct neighbours in the iteration order
+    (a gene in between, even one without domains), or lie in different regions, or on different
+    strands, the loop still keeps the line; every reported module is a contiguous, separator-free
+    block of it.  Hence a cross-gene module only ever joins the trailing module of the upstream
+    gene with the leading module of the *adjacent, same-region, same-strand* downstream gene.
+    `Consec 0 genes`: the `index` fields number the genes 0, 1, 2, … (their iteration order). -/
+theorem chain_merges_only_neighbours (genes : List Gene) (hc : Consec 0 genes)
+    (h : ∀ g ∈ genes, InputOK g.domains g.name) :
+    ∃ out, chain genes = .ok out
+      ∧ Spec.chainBlocksOK genes (out.map fun r => (r.name, r.modules.map (·.components))) = true := by
+  obtain ⟨R, hR, _, hok⟩ := chain_blocks_spec genes hc h
+  unfold chain
+  rw [hR]
+  refine ⟨_, rfl, ?_⟩
+  rw [List.map_map]
+  exact hok
+
+/-- … and before the single-domain filter the line with separators is kept exactly -/
+theorem chain_keeps_separated_line (genes : List Gene) (hc : Consec 0 genes)
+    (h : ∀ g ∈ genes, InputOK g.domains g.name) :
+    ∃ R, chainGo genes [] false = .ok R
+      ∧ Spec.chainLine (R.map itemR) = Spec.chainLine (Spec.geneItems genes) := by
+  obtain ⟨R, hR, hl, _⟩ := chain_blocks_spec genes hc h
+  exact ⟨R, hR, hl⟩
+
 /-! ### the HMMResult under a Component (hmmscan_refinement.py): nested internal hits, the
     `detailed_names` chain the subtypes are read from, `to_json` / `from_json` -/
 
@@ -426,5 +453,15 @@ example : (Hmm.mk "PKS_KS" 0 100 0 50 [.mk "Trans-AT-KS" 0 100 0 10 [.mk "a" 5 9
 /-- an internal hit that only touches its parent is refused -/
 example : (match Hmm.validate (.mk "PKS_KS" 0 100 0 50 [.mk "x" 100 120 0 10 []]) with
            | .error .valueError => true | _ => false) = true := by decide
+
+
+/-! ### non-vacuity for 8c: a gene without domains between two genes puts a separator into the line -/
+example : Spec.chainLine [⟨0, 1, 0, leftComps⟩, ⟨2, 1, 0, rightComps⟩] = leftComps ++ [Spec.sepComp] ++ rightComps := by
+  decide
+example : Spec.chainLine [⟨0, 1, 0, leftComps⟩, ⟨1, 1, 0, rightComps⟩] = leftComps ++ rightComps := by decide
+example : Spec.chainLine [⟨0, -1, 0, leftComps⟩, ⟨1, -1, 0, rightComps⟩] = rightComps ++ leftComps := by decide
+example : Spec.chainLine [⟨0, -1, 0, leftComps⟩, ⟨1, -1, 1, rightComps⟩] = leftComps ++ [Spec.sepComp] ++ rightComps := by
+  decide
+example : Consec 0 [⟨"a", 1, 0, [], false, 0⟩, ⟨"b", 1, 0, [], false, 1⟩] := ⟨rfl, rfl, trivial⟩
 
 end ASV.C14
